@@ -106,7 +106,7 @@ def expected(d: dict):
 
 # ---------------------------------------------------------------- designs
 
-def gen_design(rng, i: int) -> dict | None:
+def gen_design(rng, i: int, kind: str | None = None) -> dict | None:
     focus = {'p_bg': 0.0, 'p_custom': 0.2, 'p_pam': 0.5, 'p_gtf': 1.0, 'p_table': 0.1, 'n_targetons': rng.choice([1, 1, 2]),
              'n_exons': rng.choice([1, 2, 3, 3]), 'exon_lens': [12, 17, 20, 22, 31, 32, 43, 45], 'cds_mut': ['snv', 'ala'], 'non_cds_mut': ['snv', '1del'],
              'allow_short_cds': True, 'allow_junction_pam': False, 'p_softmask': 0.1, 't_min': 40, 't_max': 90}
@@ -145,7 +145,7 @@ def gen_design(rng, i: int) -> dict | None:
     # the variant under study: starts inside a targeton
     kinds = ['syn', 'aa', 'aa', 'non', 'stopstop', 'mnv', 'inframe_indel', 'fs_indel', 'fs_indel', 'intron_into_exon', 'nc_snv', 'nc_indel', 'pam_on_bg',
              'junction_aa', 'junction_syn', 'pam_on_del', 'junction_aa', 'junction_aa', 'straddle_end']
-    kind = kinds[i % len(kinds)]
+    kind = kind or kinds[i % len(kinds)]
     coding_pos = [p for p in range(t0['ref_start'] + 1, t0['ref_end'] - 7) if inex(p) and fr.codon_positions(p) and p not in pam_pos]
     nonc_pos = [p for p in range(t0['ref_start'] + 1, t0['ref_end'] - 7) if not any(inex(q) for q in range(p - 2, p + 8)) and p not in pam_pos]
     rng.shuffle(coding_pos)
@@ -231,6 +231,22 @@ def gen_design(rng, i: int) -> dict | None:
                     t0['sgrna'] = sorted(set(ids))
                     cp = set(fr.codon_positions(q) or [q])
                     d['pam'] = [e for e in (d.get('pam') or []) if e['pos'] not in cp]
+                    d['pam'].append({'pos': q, 'ref': U[q - 1], 'alt': rng.choice([c for c in 'ACGT' if c != U[q - 1]]), 'sgrna': t0['sgrna'][0]})
+                break
+    elif kind == 'del_by_pam':
+        # an in-frame coding deletion inside the target region and a PAM edit of the targeton's guide one or two bases after it (or on the
+        # base before it): with both force flags the design is valid, and the snv rows next to the deletion share a codon of the background
+        # sequence with the edit - their records are widened over the deleted bases
+        ln = rng.choice([3, 3, 6])
+        for p in coding_pos:
+            span = list(range(p, p + ln + 1))
+            if t0['r2_start'] <= p - 1 and p + ln + 2 <= t0['r2_end'] and all(inex(q) and q not in pam_pos and q not in bounds for q in range(p - 1, p + ln + 3)):
+                ok = add({'pos': p, 'ref': U[p - 1:p + ln], 'alts': [U[p - 1]]}, span)
+                if ok:
+                    q = rng.choice([p + ln + 1, p + ln + 2, p, p - 1])
+                    ids = t0.get('sgrna') or ['sg1']
+                    t0['sgrna'] = sorted(set(ids))
+                    d['pam'] = [e for e in (d.get('pam') or []) if abs(e['pos'] - q) > ln + 6]
                     d['pam'].append({'pos': q, 'ref': U[q - 1], 'alt': rng.choice([c for c in 'ACGT' if c != U[q - 1]]), 'sgrna': t0['sgrna'][0]})
                 break
     elif kind in ('inframe_indel', 'fs_indel'):
@@ -402,15 +418,18 @@ def std_table_def() -> str:
             'Definition beqb (a b : bool) : bool := Bool.eqb a b.\nInfix "=?" := beqb (at level 70).\n')
 
 
-def explore(ctx: Ctx):
-    n = ctx.n(180, 2600)
+def explore(ctx: Ctx, kind: str | None = None, n: int | None = None, rng=None):
+    n = n or ctx.n(180, 2600)
+    rng = rng or ctx.rng
     designs = []
     i = 0
     while len(designs) < n and i < 6 * n:
-        d = gen_design(ctx.rng, i)
+        d = gen_design(rng, i, kind)
         i += 1
         if d is not None and 'codon_table' not in d:
             designs.append(d)
+    if not designs:
+        return
     jobs = []
     for j, d in enumerate(designs):
         combos = [(False, False), (True, False), (True, True)] + ([(False, True)] if j % 6 == 0 else [])
@@ -549,6 +568,9 @@ def codon_stage(ctx: Ctx):
 def run(ctx: Ctx):
     codon_stage(ctx)
     explore(ctx)
+    # a deliberate class (its own generator state, so that the designs above stay what they were): deletions next to a PAM edit
+    import random
+    explore(ctx, 'del_by_pam', ctx.n(24, 240), random.Random(f'C15-del-by-pam-{ctx.seed}'))
     return {'rule': 'Random SGE designs with one background variant under study starting inside a targeton (synonymous / missense / '
                     'nonsense / stop-to-stop SNV, coding MNV, in-frame and frame-shifting coding indel, deletion reaching from an intron into '
                     'an exon, non-coding SNV/indel, PAM edit on a background-altered coding base) plus 0-3 unrelated non-coding indels of 1-7 '
